@@ -121,13 +121,13 @@ def judge_cold_init(case, col):
 
 def judge_cold_threads(case, col):
     z = zygote()
-    ref = z.call("checks.c16", "cold_threads", (0, 0))
-    ref1 = z.call("checks.c16", "cold_threads", (0, 1))
+    ref = dict(z.call("checks.c16", "cold_threads", (0, 0)))
+    ref.update(z.call("checks.c16", "cold_threads", (0, 1)))
     n, variant = case["cold_threads"]
     for _ in range(6):
         got = z.call("checks.c16", "cold_threads", (n, variant))
         for call, results in got.items():
-            want = ref.get(call) or ref1.get(call)
+            want = ref.get(call)
             if want is not None and any(r not in want for r in results):
                 raise Violation("differs_under_cold_start_real_threads", case, observed="a threaded cold-start walk returned a value the single-threaded walk never returns", expected="same values")
     col.case(case, nontrivial=True, classes=("cold_start_real_threads",))
@@ -456,14 +456,15 @@ def stage_cold_init(ctx):
                 ctx.col.case(case, nontrivial=bool(fired), classes=("cold_init", "cold", "fired_inside" if fired else "not_fired", f"A:{A[0]}", f"B:{B[0]}"))
             ctx.col.count("cold_only_line_events", len(ks))
         # real threads from a cold start (probabilistic supplement; cannot fail on a correct tree)
-        ref = z.call("checks.c16", "cold_threads", (0, 0))
+        ref = dict(z.call("checks.c16", "cold_threads", (0, 0)))
+        ref.update(z.call("checks.c16", "cold_threads", (0, 1)))
         reps = 2 if ctx.tier == "quick" else 16
         for i in range(reps):
             nthreads = 2 + (i + ctx.shard) % 2
             got = z.call("checks.c16", "cold_threads", (nthreads, i + ctx.shard))
             ctx.col.bulk(1, 1, cls="cold_start_real_threads", sample={"threads": nthreads, "variant": i + ctx.shard})
             for call, results in got.items():
-                want = ref.get(call) or z.call("checks.c16", "cold_threads", (0, 1)).get(call)
+                want = ref.get(call)
                 if want is not None and any(r not in want for r in results):
                     raise Violation("differs_under_cold_start_real_threads", {"cold_threads": [nthreads, i + ctx.shard], "call": call},
                                     observed=_short([r for r in results if r not in want][0]), expected=_short(want[0]),
